@@ -12,6 +12,7 @@ import (
 	"fmt"
 	"os"
 	"runtime"
+	"sort"
 	"sync"
 	"sync/atomic"
 	"time"
@@ -21,9 +22,16 @@ import (
 
 func genCaseConc(c *Ctx, mode string) {
 	rng := c.Rng
-	E := uint64(2 + rng.Intn(2))
-	nVal := 2 + rng.Intn(2)
-	nc := newNodeCase(c, "pool", E, nVal, 0, 2)
+	// constant parameters: see newNodeEnv (no write to the global parameters between cases)
+	E := uint64(2)
+	nVal := 3
+	// half of the cases: the node is not a validator, so every justification arrives as a
+	// verification message and the best chain flips INSIDE AuthVerification (tryRollback)
+	local := 0
+	if rng.Intn(2) == 0 {
+		local = -1
+	}
+	nc := newNodeCase(c, "pool", E, nVal, local, 2)
 	defer nc.close()
 	// sequential prefix: mature coinbase outputs
 	base := int(E) + 1 + int(consensus.CoinbasePendingBlockNumber)
@@ -37,14 +45,32 @@ func genCaseConc(c *Ctx, mode string) {
 		nc.delivered[name] = true
 		tip = name
 	}
+	// the prefix is justified checkpoint by checkpoint (so that the votes of the concurrent
+	// phase name justified sources and do justify, i.e. can flip the best chain)
+	prevCp := "b0"
+	for _, a := range reverseStrings(nc.ancestors(tip)) {
+		if h := nc.nm.blocks[a].Height; h == 0 || h%E != 0 {
+			continue
+		}
+		for v := 0; v < nVal; v++ {
+			if v != local {
+				nc.sut.chain.ProcessBlockVerification(nc.env.voteMsg(v, nc.nm.blocks[prevCp].Hash(), nc.nm.blocks[a].Hash(), true))
+			}
+		}
+		prevCp = a
+	}
 	// a block tree with transactions, built on the reference node only
 	var blocks []string
 	tips := []string{tip}
 	var txs []*txInfo
 	for i := 0; i < 8+rng.Intn(8); i++ {
 		parent := tips[len(tips)-1]
-		if rng.Intn(3) == 0 {
-			parent = tips[rng.Intn(len(tips))]
+		if rng.Intn(2) == 0 { // competing branches of similar length: fork near the tips
+			lo := len(tips) - 4
+			if lo < 0 {
+				lo = 0
+			}
+			parent = tips[lo+rng.Intn(len(tips)-lo)]
 		}
 		var in []*txInfo
 		if rng.Intn(2) == 0 {
@@ -67,18 +93,32 @@ func genCaseConc(c *Ctx, mode string) {
 			if len(anc) == 0 {
 				continue
 			}
-			for v := 1; v < nVal; v++ { // every other validator votes for every checkpoint: best chain flips
-				votes = append(votes, voteEv{v, anc[0], name})
+			for v := 0; v < nVal; v++ { // every other validator votes for every checkpoint: best chain flips
+				if v != local {
+					votes = append(votes, voteEv{v, anc[0], name})
+				}
 			}
 		}
 	}
 	rng.Shuffle(len(votes), func(i, j int) { votes[i], votes[j] = votes[j], votes[i] })
+	if rng.Intn(3) > 0 {
+		// lower targets first (random among equal heights): sources are justified when they are
+		// named, so competing checkpoints of one height do get justified, often the one on the
+		// shorter branch first
+		sort.SliceStable(votes, func(i, j int) bool {
+			return nc.nm.blocks[votes[i].tgt].Height < nc.nm.blocks[votes[j].tgt].Height
+		})
+	}
 	order2 := append([]string{}, blocks...)
 	rng.Shuffle(len(order2), func(i, j int) { order2[i], order2[j] = order2[j], order2[i] })
 
 	var slow int32
-	var calls int64
+	var calls, voteErrs, voteFlips int64
+	wedged := func() bool { return atomic.LoadInt32(&slow) != 0 }
 	timed := func(what string, f func()) {
+		if wedged() {
+			return // a call already hangs: the node is wedged, do not queue up behind it
+		}
 		done := make(chan struct{})
 		go func() {
 			defer func() {
@@ -123,7 +163,16 @@ func genCaseConc(c *Ctx, mode string) {
 	run(func() {
 		for _, v := range votes {
 			msg := nc.env.voteMsg(v.order, nc.nm.blocks[v.src].Hash(), nc.nm.blocks[v.tgt].Hash(), true)
-			timed(fmt.Sprintf("ProcessBlockVerification %d %s->%s", v.order, v.src, v.tgt), func() { n.chain.ProcessBlockVerification(msg) })
+			timed(fmt.Sprintf("ProcessBlockVerification %d %s->%s", v.order, v.src, v.tgt), func() {
+				before := n.chain.VerifNodeCasper().BestChain()
+				err := n.chain.ProcessBlockVerification(msg)
+				if err != nil {
+					atomic.AddInt64(&voteErrs, 1)
+				}
+				if n.chain.VerifNodeCasper().BestChain() != before {
+					atomic.AddInt64(&voteFlips, 1)
+				}
+			})
 			time.Sleep(time.Duration(rng.Intn(300)) * time.Microsecond)
 		}
 	})
@@ -144,6 +193,9 @@ func genCaseConc(c *Ctx, mode string) {
 					return
 				default:
 				}
+				if wedged() {
+					return
+				}
 				timed("read queries", func() {
 					h := n.chain.BestBlockHeader()
 					n.chain.InMainChain(h.Hash())
@@ -159,6 +211,14 @@ func genCaseConc(c *Ctx, mode string) {
 	wg.Wait()
 	close(stop)
 	readerWG.Wait()
+	if wedged() {
+		// the failure is recorded; the node cannot be used any more (and the goroutines stuck
+		// inside it stay behind): end this case and the run
+		nc.emit(fmt.Sprintf("conc blocks=%d votes=%d txs=%d", len(blocks), len(votes), len(txs)), "hang")
+		nc.dead = true
+		concWedged = true
+		return
+	}
 	n.quiesce()
 	// deliver everything once more sequentially and check the final state's consistency
 	for _, name := range blocks {
@@ -170,7 +230,21 @@ func genCaseConc(c *Ctx, mode string) {
 	nc.oracleAfterEvent("the concurrent run", procResult{})
 	nc.emit(fmt.Sprintf("conc blocks=%d votes=%d txs=%d", len(blocks), len(votes), len(txs)), "ok")
 	_ = final
+	c.Dist["conc-vote-errors"] += int(atomic.LoadInt64(&voteErrs))
+	c.Dist["conc-votes-around-which-the-fork-choice-changed"] += int(atomic.LoadInt64(&voteFlips))
+	c.Dist["conc-votes"] += len(votes)
 	c.Count("conc-calls-returned")
 	c.Dist["conc-calls"] += int(atomic.LoadInt64(&calls))
 	c.Distinct(fmt.Sprintf("conc-%d-%d", c.Seed, c.nOps))
+}
+
+// concWedged: a call of an earlier case never returned; no further cases are generated.
+var concWedged bool
+
+func reverseStrings(l []string) []string {
+	out := make([]string, 0, len(l))
+	for i := len(l) - 1; i >= 0; i-- {
+		out = append(out, l[i])
+	}
+	return out
 }
